@@ -277,6 +277,16 @@ class C16(Prop):
             if not close(val, want, 1e-8):
                 r.fail("metric-definition", metric=name, reported=val, expected=want, theorem="the model's definition",
                        clause="each reported metric equals its textbook definition computed independently")
+        # the quantile lies between two observed returns, the shortfall is not above it (quantile_bracket,
+        # expected_shortfall_le_var); reference points are the returns computed here from the input
+        gv, ge = got.get("var", (None, None)), got.get("es", (None, None))
+        if srt and gv[0] == "ok" and gv[1] is not None and not math.isnan(gv[1]):
+            slack = 1e-9 * max(1.0, abs(srt[0]), abs(srt[-1]))
+            if not (srt[0] - slack <= gv[1] <= srt[-1] + slack):
+                r.fail("var-outside-observed-returns", reported=gv[1], lowest=srt[0], highest=srt[-1],
+                       theorem="quantile_bracket")
+            if ge[0] == "ok" and ge[1] is not None and not math.isnan(ge[1]) and ge[1] > gv[1] + slack:
+                r.fail("shortfall-above-var", shortfall=ge[1], var=gv[1], theorem="expected_shortfall_le_var")
         # drawdown range / zero at highs / (1+cagr)^years
         d_impl = s.drawdown()
         dv = [float(x) for x in d_impl.tolist()]
